@@ -761,10 +761,15 @@ pub fn gen_pipe(rng: &mut Rng, wish: &PipeWish) -> Pipe {
             }
             if rng.chance(1, 4) {
                 // escape sequences, some of which contain a character another one escapes
-                let mut pool = vec!["<&lt;", "&&amp;", ">&gt;", "a[a]", "\t\\t", "e3", "\"\\\"", ";\\;"];
+                let mut pool = vec!["<&lt;", "&&amp;", ">&gt;", "a[a]", "\t\\t", "e3", "\"\\\"", ";\\;", "ab", "bc", "ca"];
                 rng.shuffle(&mut pool);
-                for e in pool.iter().take(rng.range(1, 3)) {
+                for e in pool.iter().take(rng.range(1, 4)) {
                     opts.push(vec![format!("--escape-sequance={e}")]);
+                }
+                // escapes apply to strings printed at the top level of a cell
+                if rng.chance(2, 3) {
+                    opts.push(vec!["--select".into(), format!("{}=esc", rng.pick(&[".s", ".g", "(concat .s .g)"]))]);
+                    selects += 1;
                 }
             }
         }
